@@ -210,22 +210,22 @@ def impl_leaves(impl):
     return out
 
 
-def flatten(impl):
+def flatten(impl, ops=("or_composition", "xor_composition", "and_composition", "then_also_composition")):
     """implementation tree with runs of one and the same operator flattened (I3: same-operator regrouping is
     unspecified).  Bracket information is not in the implementation tree, so this is coarser than `matches`."""
     if not isinstance(impl, tuple) or not impl:
         return impl
     h = impl[0]
-    if h in ("or_composition", "xor_composition", "and_composition", "then_also_composition"):
+    if h in ops:
         items = []
         for c in impl[1:]:
-            fc = flatten(c)
+            fc = flatten(c, ops)
             if isinstance(fc, tuple) and fc and fc[0] == h:
                 items.extend(fc[1:])
             else:
                 items.append(fc)
         return (h,) + tuple(items)
-    return (h,) + tuple(flatten(c) if isinstance(c, tuple) else c for c in impl[1:])
+    return (h,) + tuple(flatten(c, ops) if isinstance(c, tuple) else c for c in impl[1:])
 
 
 def to_bool(ref, val):
